@@ -473,9 +473,15 @@ ParamVerdict(d, v, w, alsoDecoded) ==
                         ELSE [want EXCEPT !.items = [i \in 1..Len(want.items) |-> r[i].t]]
                ELSE want
         \* ... and so is the case text appearing verbatim on the wire (the user wrote the percent-encoding himself)
-        verbatim == alsoDecoded /\ d.loc = "path" /\ v.k = "prim" /\ w.pmode = "pct" /\ PctUpper(w.seg) = PctUpper(want.items[1])
+        verbatim == /\ alsoDecoded /\ d.loc = "path" /\ v.k = "prim"
+                    /\ IF w.pmode = "pct" THEN PctUpper(w.seg) = PctUpper(want.items[1])
+                       ELSE LET p == PctDecode(Utf8Encode(want.items[1]), FALSE) IN ~p.bad /\ p.out = w.seg
+        \* an explicit text whose percent-triplets denote bytes that are not UTF-8 has no value to recover (a gateway may replace the bytes)
+        notText == /\ alsoDecoded /\ d.loc = "path" /\ v.k = "prim"
+                   /\ LET p == PctDecode(Utf8Encode(want.items[1]), FALSE) IN ~p.bad /\ Utf8Decode(p.out).bad
     IN  IF fr # "T" THEN [v |-> "U", why |-> fr]
         ELSE IF verbatim THEN [v |-> "T", why |-> ""]
+        ELSE IF notText THEN [v |-> "U", why |-> "explicit-text-not-utf8"]
         ELSE IF d.style = "json" THEN (IF ContentOK(d, v, w) THEN [v |-> "T", why |-> ""] ELSE [v |-> "F", why |-> "json"])
         ELSE IF d.loc = "cookie" /\ CookieValue(w.cpresent, w.cookie).ok /\ CookieValue(w.cpresent, w.cookie).v # <<>>
                 /\ Head(CookieValue(w.cpresent, w.cookie).v) = cDQ THEN [v |-> "U", why |-> "quoted-cookie-value"]
@@ -494,15 +500,20 @@ Extra == {<<46, 46>>, <<97, 32, 97>>, <<37, 52, 49>>, <<37, 50, 48>>, <<97, 43, 
           <<97, 37>>, <<116, 114, 117, 101>>, <<124>>, <<91>>, <<9>>}
 Specials == {PInt(0), PInt(1), PInt(12), PBool(TRUE), PBool(FALSE), PNull}
 PrimVals(n) == {PStr(s) : s \in Strs(n) \cup Extra} \cup Specials
-ItemsA(r) == {PStr(s) : s \in Strs(1)} \cup (Specials \ {PInt(12)})
-                 \cup (IF r THEN {PStr(s) : s \in {<<97, 32, 97>>, <<37, 52, 49>>, <<97, 43, 97>>, <<46, 46>>, <<233, 49>>, <<124>>, <<9>>}} ELSE {})
-ItemsB(r) == IF r THEN {PStr(s) : s \in Strs(1)} \cup {PBool(FALSE), PNull, PInt(0)}
-             ELSE {PStr(<<97>>), PStr(<<>>), PBool(TRUE)}
+(* The item classes are the same in both tiers (so that the same value features are judged for the same definitions);   *)
+(* the thorough tier adds the full product of pairs.                                                                     *)
+ItemsA == {PStr(s) : s \in Strs(1)} \cup (Specials \ {PInt(12)})
+             \cup {PStr(s) : s \in {<<97, 32, 97>>, <<37, 52, 49>>, <<97, 43, 97>>, <<46, 46>>, <<233, 49>>, <<124>>, <<9>>}}
+ItemsB == {PStr(s) : s \in Strs(1)} \cup {PBool(FALSE), PNull, PInt(0)}
+Second == {PStr(<<>>), PBool(TRUE), PNull, PInt(0)}
+pA == PStr(<<97>>)
+ItemPairs(r) == IF r THEN {<<x, y>> : x \in ItemsA, y \in ItemsB}
+            ELSE {<<x, pA>> : x \in ItemsA} \cup {<<pA, y>> : y \in Second}
 KeysA == {<<32>>, <<61>>, <<233>>, <<37>>, <<38>>, <<44>>, <<46>>, <<93>>}
 kA == <<97>>   kB == <<98>>
-ArrVals(r) == {VArr(<<>>)} \cup {VArr(<<x>>) : x \in ItemsA(r)} \cup {VArr(<<x, y>>) : x \in ItemsA(r), y \in ItemsB(r)}
-ObjVals(r) == {VObj(<<>>, <<>>)} \cup {VObj(<<kA>>, <<x>>) : x \in ItemsA(r)} \cup {VObj(<<k>>, <<PStr(<<97>>)>>) : k \in KeysA}
-                 \cup {VObj(<<kA, kB>>, <<x, y>>) : x \in ItemsA(r), y \in ItemsB(r)}
+ArrVals(r) == {VArr(<<>>)} \cup {VArr(<<x>>) : x \in ItemsA} \cup {VArr(p) : p \in ItemPairs(r)}
+ObjVals(r) == {VObj(<<>>, <<>>)} \cup {VObj(<<kA>>, <<x>>) : x \in ItemsA} \cup {VObj(<<k>>, <<pA>>) : k \in KeysA}
+                 \cup {VObj(<<kA, kB>>, p) : p \in ItemPairs(r)}
 ValsOf(type, n, r) == CASE type = "prim" -> {VPrim(p) : p \in PrimVals(n)} [] type = "array" -> ArrVals(r) [] OTHER -> ObjVals(r)
 Long(r) == IF r THEN {VPrim(PStr(s)) : s \in [1..3 -> Alphabet]} ELSE {}
 
